@@ -131,7 +131,15 @@ def _scale_return(path, funcname, factor):
     return True
 
 
-INCR_EDITS = [("pygyro/initialisation/initialiser_funcs.py", "f_eq", 1.000001)]
+# one incremental stage per source that the advection extension links statically (each in its own copy of the built tree, so that a
+# prerequisite missing for ONE of them is not hidden by the rebuild the others trigger)
+INCR_STAGES = {
+    "incr": ("initialiser_funcs", [("pygyro/initialisation/initialiser_funcs.py", "f_eq", 1.000001)]),
+    "incr_cu": ("cubic_uniform_spline_eval_funcs", [("pygyro/splines/cubic_uniform_spline_eval_funcs.py", "cu_eval_spline_1d_scalar", 1.000001),
+                                                    ("pygyro/splines/cubic_uniform_spline_eval_funcs.py", "cu_eval_spline_2d_scalar", 1.000001)]),
+    "incr_nu": ("spline_eval_funcs", [("pygyro/splines/spline_eval_funcs.py", "nu_eval_spline_1d_scalar", 1.000001),
+                                      ("pygyro/splines/spline_eval_funcs.py", "nu_eval_spline_2d_scalar", 1.000001)]),
+}
 
 
 def prepare(tier, seed):
@@ -180,25 +188,36 @@ def prepare(tier, seed):
         # history: build, edit a source another module links statically, documented build again WITHOUT cleaning
         fb = status["builds"].get("fortran")
         if tier == "thorough" and fb and fb["ok"]:
-            tree = os.path.join(base, "incr")
-            shutil.copytree(fb["tree"], tree, symlinks=True)            # copy2: time stamps of sources and products are kept
+            runs = []
+            for sname, (_mod, edits) in INCR_STAGES.items():
+                tree = os.path.join(base, sname)
+                shutil.copytree(fb["tree"], tree, symlinks=True)            # copy2: time stamps of sources and products are kept
+                runs.append([sname, tree, edits])
             time.sleep(1.1)
-            edited = [rel for rel, fn_, fac in INCR_EDITS if _scale_return(os.path.join(tree, rel), fn_, fac)]
-            t0 = time.time()
             cmd = _build_cmd("fortran", False)
-            with open(os.path.join(base, "incr.build.log"), "w") as log:
+            for run in runs:
+                sname, tree, edits = run
+                edited = [rel for rel, fn_, fac in edits if _scale_return(os.path.join(tree, rel), fn_, fac)]
+                log = open(os.path.join(base, sname + ".build.log"), "w")
+                run += [edited, log, time.time(),
+                        subprocess.Popen(cmd, cwd=tree, env=env, stdout=log, stderr=subprocess.STDOUT, stdin=subprocess.DEVNULL)]
+            for sname, tree, edits, edited, log, t0, p in runs:
                 try:
-                    rc = subprocess.run(cmd, cwd=tree, env=env, stdout=log, stderr=subprocess.STDOUT, stdin=subprocess.DEVNULL, timeout=900).returncode
+                    rc = p.wait(900)
                     timed_out = False
                 except subprocess.TimeoutExpired:
+                    p.kill()
+                    p.wait()
                     rc, timed_out = -9, True
-            with open(os.path.join(base, "incr.build.log"), errors="replace") as f:
-                text = f.read()
-            so = _expected_so(tree)
-            missing = [m for m, f in so.items() if f is None]
-            status["builds"]["incr"] = {"tree": tree, "lang": "fortran", "sanitized": False, "incremental": True, "edited": edited, "ok": rc == 0 and not missing and bool(edited),
-                                        "rc": rc, "timed_out": timed_out, "missing_modules": missing, "so": so, "wall": round(time.time() - t0, 1), "cmd": " ".join(cmd),
-                                        "errors": [ln for ln in text.splitlines() if re.search(r"error|Error|ERROR|\*\*\*", ln) and "UserWarning" not in ln][:12], "log_tail": text[-1800:]}
+                log.close()
+                with open(log.name, errors="replace") as f:
+                    text = f.read()
+                so = _expected_so(tree)
+                missing = [m for m, f in so.items() if f is None]
+                status["builds"][sname] = {"tree": tree, "lang": "fortran", "sanitized": False, "incremental": True, "edited": edited,
+                                           "ok": rc == 0 and not missing and len(edited) == len(edits),
+                                           "rc": rc, "timed_out": timed_out, "missing_modules": missing, "so": so, "wall": round(time.time() - t0, 1), "cmd": " ".join(cmd),
+                                           "errors": [ln for ln in text.splitlines() if re.search(r"error|Error|ERROR|\*\*\*", ln) and "UserWarning" not in ln][:12], "log_tail": text[-1800:]}
     except Exception as e:  # noqa: BLE001  (harness trouble: reported as inconclusive by every case)
         import traceback
         status["error"] = "%s: %s\n%s" % (type(e).__name__, e, traceback.format_exc()[-1200:])
@@ -268,11 +287,12 @@ def gen_cases(tier, seed):
                 cases.append({"kind": "diff", "lang": lang, "family": fam, "n": K.FAMILIES[fam][col], "seed": rng.randrange(1 << 30),
                               "cost": cost * K.FAMILIES[fam][col]})
     if tier == "thorough":
-        cases.append({"kind": "build", "build": "incr", "cost": 0.1})
-        for fam in K.FAMILIES_OF_MODULE["accelerated_advection_steps"] + K.FAMILIES_OF_MODULE["initialiser_funcs"]:
-            for _ in range(4):
-                cases.append({"kind": "diff", "lang": "incr", "family": fam, "n": K.FAMILIES[fam][col], "seed": rng.randrange(1 << 30),
-                              "cost": K.FAMILIES[fam][4] * K.FAMILIES[fam][col]})
+        for sname, (emod, _edits) in INCR_STAGES.items():
+            cases.append({"kind": "build", "build": sname, "cost": 0.1})
+            for fam in K.FAMILIES_OF_MODULE["accelerated_advection_steps"] + K.FAMILIES_OF_MODULE[emod]:
+                for _ in range(4 if sname == "incr" else 2):
+                    cases.append({"kind": "diff", "lang": sname, "family": fam, "n": K.FAMILIES[fam][col], "seed": rng.randrange(1 << 30),
+                                  "cost": K.FAMILIES[fam][4] * K.FAMILIES[fam][col]})
     for fam, (mod, _g, nq, nt, cost) in K.FAMILIES.items():
         for _ in range(1 if tier == "quick" else 6):
             cases.append({"kind": "san", "family": fam, "n": K.FAMILIES[fam][col], "seed": rng.randrange(1 << 30),
